@@ -85,6 +85,36 @@ print(json.dumps({"child_rc": p.returncode, "child_pid": p.pid, "leaked": mine})
 '''
 
 
+COLLIDE = r'''
+import glob, json, os, subprocess, sys, time
+# a name collision must not untrack the owner: the child creates a named semaphore, a second creation with the same name fails with
+# FileExistsError, then the child dies by SIGKILL (no finalizer runs): the tracker must still sweep the name
+code = """
+import os, signal
+from loky.backend.synchronize import SemLock, SEMAPHORE
+name = '/loky-%d-collide' % os.getpid()
+owner = SemLock(SEMAPHORE, 1, 1, name=name)
+try:
+    SemLock(SEMAPHORE, 1, 1, name=name)
+    print('second creation accepted')
+except FileExistsError:
+    print('FileExistsError')
+import sys; sys.stdout.flush()
+os.kill(os.getpid(), signal.SIGKILL)
+"""
+p = subprocess.Popen([sys.executable, "-c", code], stdout=subprocess.PIPE, text=True)
+out = p.communicate(timeout=60)[0]
+path = f"/dev/shm/sem.loky-{p.pid}-collide"
+t0 = time.time()
+while os.path.exists(path) and time.time() - t0 < 20:
+    time.sleep(0.1)
+left = os.path.exists(path)
+if left:
+    os.unlink(path)
+print(json.dumps({"child_rc": p.returncode, "second_creation": out.strip(), "left": left, "name": path}))
+'''
+
+
 FINALIZER = r'''
 import gc, glob, json, os, signal, subprocess, sys, time
 # crash points inside the finalizer of a named semaphore: the child kills itself at the entry / exit of the two steps
@@ -240,6 +270,14 @@ def run(ctx):
                 os.unlink(f)
         except (ValueError, IndexError, OSError):
             pass
+    # (c') a failed creation on a name that is taken must not untrack its owner
+    cres = runner.run_script(COLLIDE, vlib.REPO, timeout=120, spare_trackers=True)
+    cgot = runner.last_json(cres)
+    if cgot is None:
+        fails.append((("collide",), ["name-collision scenario did not complete: " + cres["stderr"][-300:]], None))
+    elif cgot["left"] or cgot["second_creation"] != "FileExistsError":
+        fails.append((("collide",), [f"owner=SemLock(name=N); SemLock(name=N) -> {cgot['second_creation']}; SIGKILL: {cgot['name']} "
+                                     + ("was never swept by the tracker" if cgot["left"] else "")], cgot))
     # (d) death at the entry / exit of either step of the finalizer, for every kind of primitive
     kinds = "lock,event" if ctx.tier == "quick" else "lock,sem,cond,event,queue"
     fres = runner.run_script(FINALIZER, vlib.REPO, timeout=300, args=(kinds,), spare_trackers=True)
